@@ -88,6 +88,47 @@ Qed.
 
 End Ref.
 
+(* the walk from pointer (R, cyc) over B is the walk from (0, cyc) over what every worker has left at that pointer — the form in
+   which an iterator built from a state dict sees it: workers below cyc have their round-0 slot behind them (one placeholder) *)
+Section Canon.
+Variable W : nat.
+Variable B : nat -> list (list nat).
+Hypothesis HW : 0 < W.
+Variables R cyc : nat.
+Hypothesis Hcyc : cyc < W.
+
+Definition Brem (w : nat) : list (list nat) :=
+  if w <? cyc then [] :: skipn (S R) (B w) else skipn R (B w).
+
+Lemma dat_rem w r : (0 < r \/ cyc <= w) -> dat Brem w r = dat B w (R + r).
+Proof.
+  intros H. unfold dat, Brem. destruct (Nat.ltb_spec w cyc) as [Hl|Hl].
+  - destruct r as [|r]; [lia|]. cbn [nth_error]. rewrite nth_error_skipn. replace (S R + r) with (R + S r) by lia. reflexivity.
+  - rewrite nth_error_skipn. reflexivity.
+Qed.
+
+Lemma row_rem r from : (0 < r \/ cyc <= from) -> row_from W Brem r from = row_from W B (R + r) from.
+Proof.
+  intros H. unfold row_from. rewrite !flat_map_concat_map. f_equal. apply map_ext_in. intros w Hin. apply in_seq in Hin.
+  apply dat_rem. lia.
+Qed.
+
+Lemma rows_rem n : forall r, 0 < r -> rows W Brem n r = rows W B n (R + r).
+Proof.
+  induction n as [|n IH]; intros r Hr; [reflexivity|]. cbn [rows]. rewrite row_rem by lia. rewrite IH by lia.
+  replace (R + S r) with (S (R + r)) by lia. reflexivity.
+Qed.
+
+Lemma refsuf_canon : refsuf W Brem 0 cyc = refsuf W B R cyc.
+Proof.
+  set (n := Mx W B + Mx W Brem).
+  rewrite (refsuf_enough W Brem HW 0 cyc n) by (unfold n; lia).
+  rewrite (refsuf_enough W B HW R cyc n) by (unfold n; lia).
+  rewrite row_rem by lia. rewrite rows_rem by lia. rewrite Nat.add_0_r. replace (R + 1) with (S R) by lia. reflexivity.
+Qed.
+
+End Canon.
+
 (* the fresh iterator: B = the batches of each worker's shard *)
 Section Fresh.
 Variable c : cfg.
